@@ -31,7 +31,7 @@ func genAccounts() {
 		stmts(acc, "accounts.go", fn, fn)
 		hashFn(acc, fn)
 	}
-	for _, fn := range []string{"mutatePermissions", "mutatePermissionsDirect", "mutateDirectory", "ensureParentDirectory", "mutateEmptyFile",
+	for _, fn := range []string{"permissionsToFileMode", "mutatePermissions", "mutatePermissionsDirect", "mutateDirectory", "ensureParentDirectory", "mutateEmptyFile",
 		"mutateHardLink", "mutateSymLink", "mutatePaths"} {
 		stmts(pth, "paths.go", fn, fn)
 		hashFn(pth, fn)
